@@ -782,7 +782,7 @@ class Runner:
     def run_exe(self, exe, s, asan=False):
         rc, out, err = self.b.run(exe, timeout=60 if asan else 30, cwd=os.path.dirname(s.path))
         if rc == -9:
-            rc, out, err = self.b.run(exe, timeout=400, cwd=os.path.dirname(s.path))
+            rc, out, err = self.b.run(exe, timeout=120, cwd=os.path.dirname(s.path))   # once more, patiently: a loaded machine
         with self.lock:
             self.runs += 1
         return observed(rc, out, err)
